@@ -19,7 +19,7 @@ claim('C03', 'model_checking',
       'explicit-state BFS over connection histories on the real bus with an exhaustive forged-header send alphabet in every state',
       'Histories of connect, Hello, repeated Hello, disconnect and reconnect by 3 clients are explored to a fix-point (states keyed by the implementation\'s dump with unique names renamed to slots); '
       'in each state each client writes every message of the alphabet (method call, signal, return, error x unicast to unique name / well-known name / broadcast / the bus x forged SENDER, '
-      'unknown fields 11/200/255 with string and variant-of-struct payloads, CONTAINER_INSTANCE) as raw bytes. Every received message is decoded by the independent codec and must carry the true sender and none of the forged fields; '
+      'unknown fields 11/200/255 with string and variant-of-struct payloads, runs of adjacent unknown fields, unknown fields first and last, CONTAINER_INSTANCE) as raw bytes. Every received message is decoded by the independent codec and must carry the true sender and none of the forged fields; '
       'unique names must be fresh and valid and can never be requested (own, a peer\'s, a departed one, one not issued yet); a monitor is among the receivers; a thorough-tier scenario seeds the name counters next to INT_MAX and crosses the wrap.',
       'Trusts pyv/refdbus.py. More than 3 clients and alphabets beyond the listed forgeries are not covered.',
       'DESIGN.md section 4 C03')
